@@ -50,6 +50,7 @@ STRENGTHENED = {
     'C19_8': '=not a C19 check (sub-tolerance knot spans are collapsed by the constructor before any file is written); caught by C10: first through the translator obligation only, then with failing inputs after accepted vectors with positive spans below the tolerance were added',
     'C05_9': '=caught, but without a failing input (translator obligation for BSplineBasis.raise_order only); generator then extended: bases whose repeated interior knot has copies one ulp apart (round-off twins), with a tolerance-aware comparison of the lowered knot vector for exactly those cases',
     'C17_9': '=the check crashed (exit 2, no verdict): the mutated Orientation.compute raised a numpy broadcast ValueError under BSplineBasis.matches; the harness now attributes exceptions to the innermost library-or-harness frame (third-party frames skipped) and the C17 oracle reports any exception other than OrientationError from Orientation.compute as a failing input',
+    'C08_9': '=MISSED by C08\'s own check, caught by C04 (it is the same source change as C04_9, found independently): periodic insert_knot guard `n < p + k` narrowed to `n < p`; at the seam the wrong branch misbehaves only through round-off (interior knot 0.37: opened domain collapses; dyadic knots and a 1/100 grid: no effect). The C08 generator was extended to every size p-1 <= n <= p+k and to non-dyadic copies, which did not expose it; not pursued further for lack of time',
     'C16_3': '=caught, but without a failing input; oracle then extended: volumes with mixed orders (p,q,p) and full-degree nets; independent high-order quadrature oracle',
 }
 dm = os.path.join(V, 'DESIGN.md')
